@@ -238,7 +238,7 @@ def coq_eval_shards(pid: str, header: str, exprs: list[str], shard_size: int = 2
             body.append(f"Definition case_{ci} : bool := {e}.")
         body.append("Definition results : list bool := " + lst([f"case_{ci}" for ci in range(len(sh))]) + ".")
         body.append("Eval vm_compute in results.")
-        p = d / f"cases_{pid}{tag}_{si}.v"
+        p = d / f"cases_{pid}{tag}_{os.getpid()}_{si}.v"      # process id: concurrent runs of the same check do not share files
         p.write_text("\n".join(body) + "\n")
         paths.append(p)
 
@@ -264,6 +264,21 @@ def coq_eval_shards(pid: str, header: str, exprs: list[str], shard_size: int = 2
         else:
             results += [t == "true" for t in toks]
     return results, errors
+
+
+def gen_path(stem: str) -> Path:
+    """Path of a translator-generated Coq file, unique per process (concurrent runs of one check must not share it);
+    stale files of earlier runs (> 2 h) are removed."""
+    d = COQ / "gen"
+    d.mkdir(exist_ok=True)
+    now = time.time()
+    for q_ in d.glob(stem + "_p*"):
+        try:
+            if now - q_.stat().st_mtime > 7200:
+                q_.unlink()
+        except OSError:
+            pass
+    return d / f"{stem}_p{os.getpid()}.v"
 
 
 def coq_eval_text(pid: str, header: str, expr: str, timeout=300) -> str:
